@@ -419,4 +419,129 @@ def Q.flatL (k : BoolK) : List Q → Bool
       | _, _ => true) && Q.flat q && Q.flatL k qs
 end
 
+
+/-! ## which trees have a spelling -/
+
+/-- a constant that is one literal token: numbers are written unsigned, a complex literal is
+purely imaginary -/
+def Const.isLiteral : Const → Bool
+  | .int i => decide (0 ≤ i)
+  | .float f => !f.neg
+  | .complex re im => decide (re = PyFloat.zero) && !im.neg
+  | _ => true
+
+/-- a constant that a literal, or `-` applied to a literal, evaluates to -/
+def Const.spellable : Const → Bool
+  | .complex re im => (decide (re = PyFloat.zero) && !im.neg) || (decide (re = PyFloat.zero.negate) && im.neg)
+  | _ => true
+
+mutual
+def SV.litOk : SV → Bool
+  | .lit c => c.isLiteral
+  | .neg v => SV.litOk v
+  | .pos v => SV.litOk v
+  | .name _ => true
+  | .list l => SV.litOkL l
+  | .tuple l => SV.litOkL l
+def SV.litOkL : List SV → Bool
+  | [] => true
+  | v :: vs => SV.litOk v && SV.litOkL vs
+end
+
+mutual
+/-- every `lit` of the spelling is a literal token -/
+def Sx.litOk : Sx → Bool
+  | .cmp _ _ v => v.litOk
+  | .range _ s e _ _ => s.litOk && e.litOk
+  | .kw _ l => Sx.litOkL l
+  | .amp _ l r => Sx.litOk l && Sx.litOk r
+  | .not x => Sx.litOk x
+def Sx.litOkL : List Sx → Bool
+  | [] => true
+  | x :: xs => Sx.litOk x && Sx.litOkL xs
+end
+
+mutual
+def V.spellable : V → Bool
+  | .const c => c.spellable
+  | .name _ => true
+  | .list l => V.spellableL l
+  | .tuple l => V.spellableL l
+def V.spellableL : List V → Bool
+  | [] => true
+  | v :: vs => V.spellable v && V.spellableL vs
+end
+
+mutual
+def Q.spellable : Q → Bool
+  | .cmp _ _ v => v.spellable
+  | .range _ _ s e _ _ => s.spellable && e.spellable
+  | .and l => Q.spellableL l
+  | .or l => Q.spellableL l
+  | .not q => Q.spellable q
+def Q.spellableL : List Q → Bool
+  | [] => true
+  | q :: qs => Q.spellable q && Q.spellableL qs
+end
+
+mutual
+/-- every index the tree refers to is in the catalog -/
+def Q.inCat (cat : List String) : Q → Bool
+  | .cmp _ i _ => cat.contains i
+  | .range _ i _ _ _ _ => cat.contains i
+  | .and l => Q.allInCat cat l
+  | .or l => Q.allInCat cat l
+  | .not q => Q.inCat cat q
+def Q.allInCat (cat : List String) : List Q → Bool
+  | [] => true
+  | q :: qs => Q.inCat cat q && Q.allInCat cat qs
+end
+
+/-! ## where known finding D11 lives, syntactically -/
+
+mutual
+/-- the expression has the shape of a value: it can only evaluate to a value of the language
+(or raise) -/
+def valueShaped : PyAst → Bool
+  | .constant _ => true
+  | .name _ => true
+  | .attribute _ _ => true
+  | .list l => valueShapedL l
+  | .tuple l => valueShapedL l
+  | .unaryOp .usub x => valueShaped x
+  | .unaryOp .uadd x => valueShaped x
+  | .unaryOp .invert _ => true
+  | .other _ _ => true
+  | _ => false
+def valueShapedL : List PyAst → Bool
+  | [] => true
+  | a :: as => valueShaped a && valueShapedL as
+end
+
+/-- the right operand of `in` / `not in`: a value, or a call whose argument is a value -/
+def inOperandOk : PyAst → Bool
+  | .call _ args => valueShapedL args
+  | a => valueShaped a
+
+def pairOk : CmpOp × PyAst → Bool
+  | (.inOp, r) => inOperandOk r
+  | (.notIn, r) => inOperandOk r
+  | (_, r) => valueShaped r
+
+mutual
+/-- no bare value stands where a query is required (top level, operands of and/or/&/|/not) and no
+query or call stands where a value is required -/
+def noBare : PyAst → Bool
+  | .compare l rest => valueShaped l && rest.all pairOk
+  | .boolOp _ vs => noBareL vs
+  | .binOp l _ r => noBare l && noBare r
+  | .unaryOp .not x => noBare x
+  | .unaryOp .invert _ => true
+  | .other _ _ => true
+  | _ => false
+def noBareL : List PyAst → Bool
+  | [] => true
+  | a :: as => noBare a && noBareL as
+end
+
 end Hyp.Cqe
